@@ -1034,8 +1034,11 @@ def clear_config(clear_constants=False):
   else:
     saved_constants = _CONSTANTS.copy()
     _CONSTANTS.clear()  # Clear then redefine constants (re-adding bindings).
+    # Re-insert directly: going through `constant()` would re-run its duplicate
+    # check, which rejects constants legitimately defined in interactive mode
+    # (e.g. 'a.X' followed by 'X') and aborts the clear half-way.
     for name, value in saved_constants.items():
-      constant(name, value)
+      _CONSTANTS[name] = value
   _IMPORTS.clear()
   with _OPERATIVE_CONFIG_LOCK:
     _OPERATIVE_CONFIG.clear()
